@@ -36,6 +36,12 @@ TRUSTED = [
     'Task.cancel() on a suspended task delivers CancelledError at the await at a later iteration (on a running / not yet started / '
     'already woken task via _must_cancel), awaiting a done future does not suspend, Future.set_result wakes the waiter through call_soon',
     'correspondence is differential testing: model = code only on the schedules executed',
+    'EXTENSION NOT COVERED BY THEOREMS: the watcher hook (a callback on one parameter assigning a plain value to the other) and '
+    'references with a dependency re-evaluated by source changes (bump -> _sync_refs) exist only in lean/ParamVerif/Async/ModelExt.lean '
+    '(proved equal to the core model when absent: driver_model_is_core_model); for them the verdict rests on model = code on the '
+    'schedules executed plus the oracle lean/ParamVerif/Async/SpecExt.lean',
+    'harness numbering of tasks: param.parameterized.async_executor is wrapped (delegating to the original) to number the _async_ref '
+    'tasks in scheduling order and to tell each coroutine body which task runs it (contextvar); hand-made future (t, k) = k-th await of task t',
     'source facts read by harness/props/c10.py:_facts (is the coroutine awaited inside `with _syncing`; is there a stale-reference return '
     'in _async_ref; is the registration unconditional) select the model variant Cfg reported in the observation; a wrong choice shows up '
     'as a correspondence mismatch',
@@ -46,9 +52,9 @@ ASSUMPTIONS = [
     'without one of the fixes is run against the corresponding pre-fix variant of the model and its violations are reported). The '
     'old_code_* theorems are regression theorems about the pre-fix configuration only.',
     'one Parameterized instance with 2 allow_refs Parameters, initialised before the first event; integer results, pairwise distinct',
-    'hand-made futures are never shared between assignments (the k-th future of the t-th asynchronous assignment has id (t,k)); coroutine '
-    'functions / async generator functions without dependencies, so _sync_refs never re-schedules them (the unregistered re-scheduled '
-    'task is shown by notes/probes/p10_sync_refs_reschedule.py, outside the model); no references to other Parameters (C08)',
+    'hand-made futures are never shared between tasks (the k-th await of the t-th scheduled _async_ref task has id (t,k)); dependencies: '
+    'only param.bind(async_fn, src.param.x) on ONE source parameter of another object (every source change re-evaluates every async '
+    'reference of the target, as _sync_refs does); no synchronous references to other Parameters (C08)',
     'NOT modelled: real timing; sync generator functions (_to_async_gen runs next() in a thread pool via asyncio.to_thread); event loops '
     'other than asyncio\'s FIFO loop and user-supplied async_executor; the no-running-loop path of async_executor (run_until_complete); the '
     're-scheduling of _async_ref while the instance is uninitialised (unreachable on a running loop: the constructor finishes before the '
@@ -64,12 +70,19 @@ RULE = ('quick: corpus (the witness schedules of the repaired defects) + directe
         '2-await generator: every order of the completions relative to the assignments and to each other x a tick or not between any two '
         'events (so: plain assignments at every interleaving point, re-assignments with and without a loop iteration in between); bursts of '
         '2-3 assignments of every mix with no tick in between x every completion order; one plain assignment inserted at every position of '
-        'four fully ticked / unticked generator schedules; 24 rx schedules; 2000 random schedules of <=5 assignments (generators with 1-3 '
+        'four fully ticked / unticked generator schedules; references WITH A DEPENDENCY (coroutine / 2-await generator bound to a source '
+        'parameter, alone or next to a second linked parameter) x 1-2 source changes x an optional plain assignment in every order, ticks in '
+        'between, then the futures of all tasks (re-evaluations included) completed in several orders, plus one early completion at every '
+        'point; a WATCHER HOOK (on write of a: b = plain) in both directions x every schedule of <=2 assignments (3 in thorough); 24 rx '
+        'schedules; 2000 random schedules of <=5 assignments (generators with 1-3 '
         'awaits). thorough: the same with 3 assignments in EVERY mix of coroutine / 2-await generator / plain on 1-2 parameters, bursts of 4, '
         'completions before the assignment everywhere, 60000 random schedules, and every rx schedule of <=3 input changes. After every event '
         'the observation is compared with the model and checked by the oracle. non-trivial = at least one result of an awaitable was '
         'applied; distinct = distinct canonical case')
-COVERAGE_TARGETS = ['assign:coro', 'assign:agen', 'assign:plain:unlink-and-cancel', 'assign:plain:not-linked',
+COVERAGE_TARGETS = ['bump:while-task-registered', 'bump:also-reschedules-independent-reference', 'bump:no-dependent-reference',
+                    'start:cancel-registered-older-evaluation', 'wake:cancelled-future:newer-task-registered',
+                    'hook:in-step:cancels-registered', 'hook:in-step:unlinks', 'hook:in-step:not-linked', 'hook:on-driver-assignment',
+                    'assign:coro', 'assign:agen', 'assign:plain:unlink-and-cancel', 'assign:plain:not-linked',
                     'assign:coro:cancels-registered', 'assign:agen:cancels-registered',
                     'start:register', 'start:ran-to-end', 'start:suspend-generator',
                     'wake:result:generator', 'wake:cancelled-future', 'wake:must-cancel',
@@ -358,8 +371,8 @@ def compare(impl, model):
 
 # ------------------------------------------------------------------ generation
 
-def _mk(events):
-    return {'kind': 'param', 'np': NP, 'events': events}
+def _mk(events, hook=None):
+    return {'kind': 'param', 'np': NP, 'hook': hook, 'events': events}
 
 
 def _values(tid, n):
@@ -477,6 +490,108 @@ def _from_spec(spec):
     return _mk(evs)
 
 
+def _shadow_tasks(events):
+    """the tasks a correct library schedules for these events: [(tid, n_futs)].  (Generator-side
+    only, to know which completions make sense; a completion of a future nobody awaits is harmless.)"""
+    links = {}                      # p -> (n_futs, dep), insertion-ordered
+    out = []
+    for e in events:
+        if e['e'] == 'assign':
+            links.pop(e['p'], None)
+            if e['src'] != 'plain':
+                links[e['p']] = (len(e['v']), bool(e.get('dep')))
+                out.append((len(out), len(e['v'])))
+        elif e['e'] == 'bump' and any(d for _, d in links.values()):
+            for n, _ in list(links.values()):
+                out.append((len(out), n))
+    return out
+
+
+def _dep_schedules(tier):
+    """references with a dependency: one or two linked parameters, 1-2 source changes, optionally a plain
+    assignment, in every order, ticks in between; then the futures of every task (those scheduled by
+    the source changes included) completed in several orders, ticking after each completion or once
+    at the end; and the same with ONE early completion placed at every later point of the prefix"""
+    quick = tier == 'quick'
+    firsts = ['coro', 'agen2']
+    seconds = [None, ('coro', False)] + ([] if quick else [('coro', True), ('agen2', True)])
+    for k0 in firsts:
+        for second in seconds:
+            for nb in (1, 2):
+                if second is not None and nb == 2 and quick:
+                    continue
+                for plain_p in (None, 0) + ((1,) if second is not None and not quick else ()):
+                    base = [dict(_assign(0, k0, 0, 0), dep=True)]
+                    if second is not None:
+                        base.append(dict(_assign(1, second[0], 1, 0), dep=second[1]))
+                    movable = [{'e': 'bump'}] * nb + ([_assign(plain_p, 'plain', 0, 0)] if plain_p is not None else [])
+                    seen = set()
+                    for perm in itertools.permutations(range(len(movable))):
+                        seq = [movable[i] for i in perm]
+                        key = json.dumps(seq)
+                        if key in seen:
+                            continue
+                        seen.add(key)
+                        prefix = base + seq
+                        n = len(prefix)
+                        full = (1 << n) - 1
+                        if n <= (3 if quick else 4):
+                            masks = range(1 << n)
+                        else:
+                            masks = sorted({0, full, 0b10101 & full, 0b01010 & full, 1, 1 << (n - 1), full ^ 1, full >> 1})
+                        for mask in masks:
+                            pre = []
+                            for i, e in enumerate(prefix):
+                                pre.append(dict(e))
+                                if (mask >> i) & 1:
+                                    pre.append({'e': 'tick'})
+                            tasks = _shadow_tasks(pre)
+                            chains = [[{'e': 'complete', 't': t, 'k': k} for k in range(nf)] for t, nf in tasks]
+                            if len(tasks) <= (2 if quick else 3):
+                                orders = list(_orders(chains))
+                            else:
+                                fwd, rev = sum(chains, []), sum(reversed(chains), [])
+                                rot = sum(chains[1:] + chains[:1], [])
+                                orders = [fwd, rev] + ([] if quick else [rot])
+                            for order in orders:
+                                for each in ((True, False) if not quick or len(order) <= 3 else (True,)):
+                                    out = list(pre)
+                                    for cev in order:
+                                        out.append(cev)
+                                        if each:
+                                            out.append({'e': 'tick'})
+                                    out.append({'e': 'tick'})
+                                    yield out
+                            # one early completion: a result that is ready while the re-evaluation is under way
+                            for t, nf in tasks[:(1 if quick else 2)]:
+                                for pos in range(1, len(pre) + 1):
+                                    if len(_shadow_tasks(pre[:pos])) <= t:
+                                        continue
+                                    out = pre[:pos] + [{'e': 'complete', 't': t, 'k': 0}] + pre[pos:] + [{'e': 'tick'}]
+                                    for t2, nf2 in reversed(tasks):
+                                        for k in range(nf2):
+                                            if (t2, k) != (t, 0):
+                                                out.append({'e': 'complete', 't': t2, 'k': k})
+                                    out.append({'e': 'tick'})
+                                    yield out
+
+
+def _hook_schedules(tier):
+    """a watcher on one parameter that assigns a plain value to the other one: every schedule of two
+    assignments (three in thorough) with the hook in both directions"""
+    for hook in ([0, 1, 500], [1, 0, 500]):
+        for n in ((1, 2) if tier == 'quick' else (1, 2, 3)):
+            kinds = ['coro', 'agen2', 'plain'] if n < 3 else ['coro', 'agen2', 'plain']
+            for srcs in itertools.product(kinds, repeat=n):
+                for params in itertools.product(range(NP), repeat=n):
+                    if hook[0] not in params:
+                        continue            # the hooked parameter is never written
+                    if n == 3 and 'agen2' in srcs:
+                        continue
+                    for evs in _schedules(srcs, params):
+                        yield evs, hook
+
+
 def _random_param_case(rng, max_assign):
     n = rng.randint(1, max_assign)
     srcs = [rng.choice(['coro', 'coro', 'agen1', 'agen2', 'agen3', 'plain']) for _ in range(n)]
@@ -507,14 +622,31 @@ def _random_param_case(rng, max_assign):
             assigned.add(len(assigned))
         order.append(ev)
     ptick = rng.choice([0.3, 0.5, 0.8])
+    mode = rng.random()
+    use_dep = mode < 0.4
+    hook = [rng.randrange(NP), 0, 500] if 0.3 < mode < 0.6 else None
+    if hook:
+        hook[1] = 1 - hook[0]
     out = []
     for ev in order:
+        if use_dep and ev['e'] == 'assign' and ev['src'] != 'plain' and rng.random() < 0.6:
+            ev = dict(ev, dep=True)
         out.append(ev)
+        if use_dep and rng.random() < 0.25:
+            out.append({'e': 'bump'})
         if rng.random() < ptick:
             out.append({'e': 'tick'})
+    if use_dep:
+        # completions of the tasks scheduled by the source changes
+        extra = [{'e': 'complete', 't': t, 'k': k} for t, nf in _shadow_tasks(out) for k in range(nf)
+                 if not any(x['e'] == 'complete' and x['t'] == t and x['k'] == k for x in out)]
+        rng.shuffle(extra)
+        for ev in extra:
+            if rng.random() < 0.9:
+                out.insert(rng.randint(max(0, len(out) - 6), len(out)), ev)
     if rng.random() < 0.9 and (not out or out[-1]['e'] != 'tick'):
         out.append({'e': 'tick'})
-    return _mk(out)
+    return _mk(out, hook)
 
 
 def _rx_schedules(nset):
@@ -666,6 +798,14 @@ def cases(rng, tier, worker, nworkers):
     for evs in _plain_everywhere(tier):
         if mine():
             yield _mk(evs)
+    # references with a dependency, re-evaluated through _sync_refs when the source changes
+    for evs in _dep_schedules(tier):
+        if mine():
+            yield _mk(evs)
+    # a watcher that overrides the other parameter with a plain value
+    for evs, hook in _hook_schedules(tier):
+        if mine():
+            yield _mk(evs, hook)
     if tier == 'thorough':
         for nset in (1, 2, 3):
             for c in _rx_schedules(nset):
@@ -691,7 +831,12 @@ def tags(case, impl):
          'params=' + str(len({e['p'] for e in evs if e['e'] == 'assign'}))]
     for e in evs:
         if e['e'] == 'assign':
-            t.append('src:' + e['src'])
+            t.append('src:' + e['src'] + (':dependent' if e.get('dep') else ''))
+    if case.get('hook'):
+        t.append('hook')
+    nb = sum(1 for e in evs if e['e'] == 'bump')
+    if nb:
+        t.append(f'bumps={min(nb, 3)}')
     return t
 
 
@@ -701,6 +846,8 @@ def nontrivial(case, impl, resp):
     if case['kind'] == 'rx':
         return resp.get('checked_steps', 0) >= 1 and any(s['value'] is not None for s in impl['steps'])
     plain = {e['v'][0] for e in case['events'] if e['e'] == 'assign' and e['src'] == 'plain'}
+    if case.get('hook'):
+        plain.add(case['hook'][2])
     return resp.get('checked_steps', 0) >= 1 and any(v not in plain for s in impl['steps'] for _, v in s['log'])
 
 
@@ -711,6 +858,8 @@ def shrink(case):
             if e['e'] != 'set':
                 yield dict(case, events=evs[:i] + evs[i + 1:])
         return
+    if case.get('hook'):
+        yield dict(case, hook=None)
     # remove one event; removing an asynchronous assignment removes its completions and renumbers later tasks
     tid_of = {}
     tid = 0
